@@ -112,6 +112,7 @@ theorem fireSetup_now (s : St) (a : Nat) : (fireSetup s a).1.now = s.now := by
     · rfl
 
 theorem setupGo_now (s : St) : (setupGo s).1.now = s.now := by unfold setupGo; split <;> rfl
+theorem versionsGo_now (s : St) : (versionsGo s).1.now = s.now := by unfold versionsGo; split <;> rfl
 
 theorem park_now (s : St) (t : Target) : (park s t).now = s.now := by cases t <;> rfl
 
@@ -131,15 +132,27 @@ theorem rs_closeEv (s : St) : RStep s (closeEv s).1 := by
 /-- every micro event except `advance` keeps the clock and the invariant -/
 theorem rinv_step {s : St} (_hi : Inv s) (h : RInv s) (e : Ev) : RInv (step s e).1 := by
   by_cases hdone : isDone s.closing = true
-  · -- after close() returned nothing is claimed any more
-    intro hnd
-    have : isDone (step s e).1.closing = true := by
-      unfold step; rw [hdone]; simp only [↓reduceIte]
-      cases e <;> first | exact hdone | (split <;> exact hdone)
-    rw [this] at hnd; cases hnd
+  · -- after close() returned nothing is claimed any more - until the object is used again, with no reconnect pending
+    by_cases hre : e = .reopen
+    · subst hre
+      have e1 : (step s .reopen).1 = (reopenEv s).1 := by simp [step, stepDone, hdone]
+      rw [e1]
+      unfold reopenEv
+      split
+      · intro hnd; rw [hdone] at hnd; cases hnd
+      · rename_i hg
+        simp only [not_or, Decidable.not_not] at hg
+        intro _ d hd
+        rw [show ({ s with closing := CPhase.no, rj := false } : St).recon = s.recon from rfl, hg.2.2] at hd
+        simp [reconDl] at hd
+    · intro hnd
+      have : isDone (step s e).1.closing = true := by
+        unfold step stepDone stepLive; rw [hdone]; simp only [↓reduceIte]
+        cases e <;> first | exact hdone | exact absurd rfl hre | (split <;> exact hdone)
+      rw [this] at hnd; cases hnd
   · simp only [Bool.not_eq_true] at hdone
     have keep : ∀ s' : St, RStep s s' → RInv s' := fun s' r => h.of_step r (fun _ => hdone)
-    unfold step
+    unfold step stepDone stepLive
     rw [hdone]
     simp only [Bool.false_eq_true, ↓reduceIte]
     cases e with
@@ -237,8 +250,16 @@ theorem rinv_step {s : St} (_hi : Inv s) (h : RInv s) (e : Ev) : RInv (step s e)
         · intro hnd d hd
           have hrec : (shutdownTail (cancelProto s) t0).1.recon = (cancelProto s).recon ∧
               (shutdownTail (cancelProto s) t0).1.now = s.now := by
-            simp only [shutdownTail, closeWriter_fst']
-            split <;> exact ⟨rfl, rfl⟩
+            have hc : isDone (shutdownTail (cancelProto s) t0).1.closing = true ∨
+                ((shutdownTail (cancelProto s) t0).1.recon = (cancelProto s).recon ∧
+                 (shutdownTail (cancelProto s) t0).1.now = s.now) := by
+              simp only [shutdownTail, closeWriter_fst']
+              split
+              · right; exact ⟨rfl, rfl⟩
+              · left; rfl
+            rcases hc with hc | hc
+            · rw [hc] at hnd; cases hnd
+            · exact hc
           rw [hrec.1] at hd
           rw [hrec.2]
           simp only [cancelProto] at hd
@@ -248,6 +269,8 @@ theorem rinv_step {s : St} (_hi : Inv s) (h : RInv s) (e : Ev) : RInv (step s e)
         · exact h
       · exact h
     | setupGo => exact keep _ ⟨setupGo_now s, Or.inl (same_setupGo s).recon⟩
+    | versionsGo => exact keep _ ⟨versionsGo_now s, Or.inl (same_versionsGo s).recon⟩
+    | reopen => exact h
     | gate a => exact keep _ ⟨(frames_gateEv s a).now, Or.inl (frames_gateEv s a).recon⟩
     | release => exact keep _ ⟨(frames_release s).now, Or.inl (frames_release s).recon⟩
     | take => exact keep _ ⟨(frames_take s).now, Or.inl (frames_take s).recon⟩
